@@ -101,8 +101,8 @@ Definition c02_code_clause (markers : list bytes) (out : bytes) : option (N * po
    controls and spaces, the scheme with its colon, and -- when two slashes follow -- the authority:
    everything before the first slash, backslash, question mark or number sign that follows the
    authority.  Without an authority the first segment counts (it is where a scheme or an authority
-   would be written); a scheme that is not followed by two slashes (javascript:, data:, blob: ...)
-   makes the whole URL origin-determining.  ASCII tab and newline are removed first, as the URL
+   would be written); after a scheme that is not followed by two slashes (javascript:, data:, blob:,
+   about: ...) everything up to the fragment is origin-determining (it IS the code or the resource).  ASCII tab and newline are removed first, as the URL
    parser does. *)
 Definition cc_alpha (c : N) : bool := ((65 <=? c) && (c <=? 90)) || ((97 <=? c) && (c <=? 122)).
 Definition cc_scheme_char (c : N) : bool :=
@@ -141,7 +141,8 @@ Definition origin_len (d : bytes) : nat :=
     | _ => otherwise
     end in
   match scheme_len s with
-  | Some n => after_slashes (lead + n)%nat (skipn n s) (length d)
+  | Some n => after_slashes (lead + n)%nat (skipn n s)
+                            (lead + n + span_len (fun c => negb (c =? 35)) (skipn n s))%nat
   | None => after_slashes lead s (lead + span_len not_delim s)%nat
   end.
 
